@@ -13,6 +13,7 @@ import (
 	"fmt"
 	"math"
 	"sync"
+	"time"
 
 	"github.com/restic/restic/internal/bloblru"
 	"github.com/restic/restic/internal/data"
@@ -29,6 +30,7 @@ type c46Repo struct {
 	blobs             map[restic.ID][]byte
 	fail              map[restic.ID]bool
 	loads             int
+	delay             time.Duration // slow LoadBlob: lets concurrent readers meet inside bloblru's in-progress path
 }
 
 func (r *c46Repo) LookupBlobSize(h restic.BlobHandle) (uint, bool) {
@@ -43,6 +45,9 @@ func (r *c46Repo) LoadBlob(_ context.Context, h restic.BlobHandle, _ []byte) ([]
 	r.mu.Lock()
 	r.loads++
 	r.mu.Unlock()
+	if r.delay > 0 {
+		time.Sleep(r.delay)
+	}
 	if r.fail[h.ID] || h.Type != restic.DataBlob {
 		return nil, errors.New("verif: load failed")
 	}
@@ -63,10 +68,11 @@ type c46Layout struct {
 	total    int
 	cum      []int
 	kind     string
+	delay    time.Duration
 }
 
 func (l *c46Layout) repo() *c46Repo {
-	r := &c46Repo{sizes: map[restic.ID]int64{}, blobs: map[restic.ID][]byte{}, fail: map[restic.ID]bool{}}
+	r := &c46Repo{sizes: map[restic.ID]int64{}, blobs: map[restic.ID][]byte{}, fail: map[restic.ID]bool{}, delay: l.delay}
 	for i, id := range l.ids {
 		r.sizes[id] = l.lookup[i]
 		r.blobs[id] = l.blobs[i]
@@ -393,16 +399,28 @@ func engineC46(c *vctx) error {
 	}
 
 	// ---- concurrent readers on one handle, tiny cache (evictions + in-progress sharing) ----
-	crounds := c.n(3, 120)
+	crounds := c.n(4, 120)
 	for r := 0; r < crounds; r++ {
 		rng := c.rng.fork()
 		nb := 2 + rng.intn(6)
+		if r%2 == 1 {
+			nb = 2 + rng.intn(2)
+		}
 		lens := make([]int, nb)
 		for i := range lens {
 			lens[i] = []int{0, 1, 2, 3, 5, 8}[rng.intn(6)]
 		}
 		l := c46Mk(rng, lens, nil)
-		h := c46Open(l, tinyCache)
+		ckind := "concurrent"
+		csize := tinyCache
+		if r%2 == 1 {
+			// blobs that never fit into the cache + slow loads: readers of the same blob meet in
+			// bloblru's in-progress path and the waiter finds nothing cached afterwards
+			ckind = "concurrent-uncacheable"
+			csize = 96 + 2
+			l.delay = 800 * time.Microsecond
+		}
+		h := c46Open(l, csize)
 		const readers = 8
 		const each = 4
 		type rd struct {
@@ -431,7 +449,7 @@ func engineC46(c *vctx) error {
 		wg.Wait()
 		for g := range res {
 			for _, x := range res[g] {
-				emit("concurrent", l, int64(x.off), x.size, x.obs, x.hu)
+				emit(ckind, l, int64(x.off), x.size, x.obs, x.hu)
 			}
 		}
 	}
